@@ -195,7 +195,7 @@ def unsaturated_exp(term, bounded_names=(), res=None):
     return out
 
 
-def log_of_vanishing_product(term, bounded_names=()):
+def log_of_vanishing_product(term, bounded_names=(), exp_like=("exp", "exp2")):
     """log(X) nodes where X is a product / quotient with an exp(arg) factor in the numerator, arg depending on something other than
     `bounded_names` and not provably non-negative: the factor underflows to 0 for admissible inputs (beyond ~39 standard
     deviations for a Gaussian) and the log is -inf where the log-density is finite.  (The algebra cancels log(exp(x)) = x; floating
@@ -215,7 +215,7 @@ def log_of_vanishing_product(term, bounded_names=()):
             for f in numer_factors(n.args[0]):
                 if isinstance(f, ast.BinOp) and isinstance(f.op, ast.Pow):
                     f = f.left
-                if isinstance(f, ast.Call) and ast.unparse(f.func).split(".")[-1] in ("exp", "exp2") and len(f.args) == 1:
+                if isinstance(f, ast.Call) and ast.unparse(f.func).split(".")[-1] in exp_like and len(f.args) == 1:
                     arg = f.args[0]
                     free = {x.id for x in ast.walk(arg) if isinstance(x, ast.Name)} - set(bounded_names)
                     attrs = [x for x in ast.walk(arg) if isinstance(x, ast.Attribute)]
@@ -287,6 +287,11 @@ def integer_dtype_hazards(fn):
             dt = n.args[0]
         if name in ("array", "asarray", "asanyarray", "zeros", "ones", "empty", "full") and len(n.args) >= 2 and dt is None and name in ("array", "asarray", "asanyarray"):
             dt = n.args[1]
+        NARROW = ("int8", "int16", "uint8", "uint16", "float16", "float32", "half", "single", "short", "ushort", "byte", "ubyte")
+        if dt is not None and ast.unparse(dt).strip("'\"").split(".")[-1] in NARROW:
+            out.append((n.lineno, ast.unparse(n)[:120], f"the array is given the narrow type {ast.unparse(dt)}: counts / positions beyond its range "
+                                                        f"wrap around (32767 for int16) and values lose their digits"))
+            continue
         if dt is not None and any(isinstance(x, ast.Attribute) and x.attr == "dtype" for x in ast.walk(dt)):
             out.append((n.lineno, ast.unparse(n)[:120], "the target dtype is copied from another array: a float value is truncated "
                                                         "whenever that array is integer-typed"))
